@@ -11,3 +11,4 @@ import UF.GroupG
 import UF.GroupH
 import UF.GroupI1
 import UF.GroupI2
+import UF.GroupI3
